@@ -367,6 +367,9 @@ CHECKS["C10"] = {
         {"name": "misc", "pkg": "imap/command", "pkgname": "command", "entry": "VerifC10Misc", "files": C10_FILES,
          "params": {"quick": grid(symcase=[1]), "thorough": grid(symcase=[1], symtag=[0, 1], bigset=[0, 1])},
          "summarise": SCAN_SUMMARISE, "cover": []},
+        {"name": "wirechunks", "pkg": "internal/session", "pkgname": "session", "entry": "VerifC10WireChunks", "files": ["zz_verif_c18.go", "zz_verif_c18b.go", "zz_verif_c10wire.go"],
+         "with": ["state_export", "backend_export", "verifdb"], "goroutines": True, "concrete_time": True, "replay_timeout_s": 90,
+         "params": {"quick": grid(cuts=[1]), "thorough": grid(cuts=[2])}, "time_limit_s": {"thorough": 2400}, "cover": ["chunked-run"]},
     ],
     "stubs": ["rfcparser.Reader -> fixed buffer, optional symbolic short reads", "time.Date with symbolic fields -> injective packing of the fields and zone offset"],
     "outside": ["bufio.Reader between socket and scanner", "string payloads longer than the bound", "numbers beyond 32 bits (C16)", "atoms containing '[' and empty literals ({0}), which the server's grammar subset does not accept", "the full product of all symbolic dimensions (each family fixes the dimensions it does not vary)", "calendar arithmetic inside time.Date (injective packing stub: the parser must pass the written fields)", "IDLE continuation / DONE, AUTHENTICATE (not registered)"],
@@ -504,3 +507,5 @@ CHECKS["C13"]["outside"] = [o for o in CHECKS["C13"]["outside"] if not o.startsw
 CHECKS["C18"]["explanation"] = CHECKS["C18"].get("explanation", "") + " VerifC18DBPath: the SQLite URI getDatabaseConn builds from a user's path, read as SQLite reads it, names exactly that path (different users never share a database file). wirelines: gating by LOGIN / SELECT judged on the wire through the real session loop."
 
 CHECKS["C20"]["explanation"] += " VerifC20Wire: on the wire through the real session loop: an APPEND the remote side refuses is answered NO, the recovery mailbox is listed, selectable, holds one message whose BODY[] ends with exactly the appended bytes; an accepted APPEND of the same bytes is answered OK and found in the mailbox."
+
+CHECKS["C10"]["explanation"] += " VerifC10WireChunks: a fixed conversation (LOGIN with synchronising literals, SELECT, UID FETCH with a header-field list, STORE with a flag list, LOGOUT) delivered through the real net.Conn -> bufio -> input collector -> scanner -> parser -> session loop stack with one [two] cuts at arbitrary positions: the session writes exactly what it writes when all bytes arrive at once."
